@@ -38,3 +38,10 @@ MANIFEST = {
     "note": "Trusted: Lean kernel + 3 standard axioms; harness/driver/check.py glue; globset, ignore (walker and types), regex, tree-sitter as parameters. Known findings: bare --SEV is lost when --SEV=ID also occurs; with two languageGlobs keys for one language the walker's type filter only contains the globs of the first. H21 (hash-order dependent language for overlapping languageGlobs) is repaired by 1c5d0c8.",
     "technique": "Lean 4 proof over hand-written executable model + separate relational spec + differential correspondence (in-process RuleCollection with real globset; real CLI on generated projects, one process per project) + generated extension table checked by `decide +kernel`",
 }
+
+
+# slice inspect: the CLI's own accounting of files and rules (`--inspect`), tied to the worker and selection models
+ENTRY["lean_modules"] += ["AstGrepVerif.Props.Inspect"]
+ENTRY["theorems"] += ['AGV.Inspect.applied_iff_select', 'AGV.Inspect.applied_iff_spec', 'AGV.Inspect.applied_count_line', 'AGV.Inspect.finding_has_applied_rule', 'AGV.Inspect.mem_scanDocLangs', 'AGV.Inspect.rule_counts', 'AGV.Inspect.effective_le_total', 'AGV.Inspect.rule_skipped_iff_off_partial', 'AGV.Inspect.rule_skipped_filter_counterexample', 'AGV.Inspect.rule_line_never_off', 'AGV.Inspect.tryNew_length']
+ENTRY["units"] += ["inspect"]
+ENTRY["trusted_base"] += ["slice inspect — modelled, not verified: utils/inspect.rs (Granularity ordering, FileTrace counters, print/print_file/print_rules as abstract lines), where the counters are bumped in run_worker, filter_file_rule / collect_file_stats / filter_file_pattern, produce_item of run and scan, read_directory_yaml / with_rule_stats rule counts; assumed: a trace line is written atomically (output Mutex), the summary is printed after every walker thread is done (channel closed), stderr writes do not fail; the walker's choice of paths is Model/Select.walkerVisits (scan) / Inspect.runWalkerVisits (run), exercised not proved"]
